@@ -7,7 +7,7 @@ from hypothesis import strategies as st
 from ..core import Clause, Violation, Discard
 from .. import gens
 
-RULE = ("Cases: a catalogue of public numeric entry points x drawn signals (32..200 samples) x read-only / writable "
+RULE = ("Cases: (object) one Cycles container handed to a drawn series of get_control_points / phase_align / get_cycle_stat calls in cycle and augmented mode, every result compared with the same call on a freshly built container; a catalogue of public numeric entry points x drawn signals (32..200 samples) x read-only / writable "
         "input arrays x option dictionaries reused across calls. (single) sift, mask_sift, ensemble_sift, "
         "complete_ensemble_sift, get_next_imf, get_next_imf_mask (each under 4 option sets incl. step sizes != 1, all stop rules, data-driven mask frequencies): layouts (n,), (n,1), (n,1,1) must give np.array_equal "
         "results, layouts (n,2), (1,n), (n,2,3) must raise; (vector) interp_envelope, get_padded_extrema, "
@@ -520,7 +520,53 @@ def oracle_reuse(case, rec):
     return True
 
 
+@st.composite
+def object_case(draw):
+    ip, lens = draw(gens.monotone_cycles_phase(3, 8, 10, 60, total_max=400))
+    steps = draw(st.lists(st.tuples(st.sampled_from(['get_control_points', 'phase_align', 'get_cycle_stat']),
+                                    st.sampled_from(['cycle', 'cycle', 'augmented'])), min_size=2, max_size=5))
+    return {'ip': ip, 'steps': steps, 'use_cache': draw(st.booleans())}
+
+
+def oracle_object(case, rec):
+    """One Cycles object handed to a series of cycle routines, some of them in 'augmented' mode: every call must give what the
+    identical call gives on a container built afresh from the same phase - repeating a deterministic call gives an identical
+    result, whatever was asked of the same object in between."""
+    import emd
+    import warnings
+    ip = np.asarray(case['ip'], dtype=float)
+    x = np.cos(ip) + 0.1 * np.cos(3 * ip)
+
+    def run(routine, mode, C):
+        if routine == 'get_control_points':
+            return emd.cycles.get_control_points(x.copy(), C, mode=mode)
+        if routine == 'phase_align':
+            return emd.cycles.phase_align(ip.copy(), x.copy(), cycles=C, npoints=16, mode=mode)
+        return emd.cycles.get_cycle_stat(C, x.copy(), func=np.mean, mode=mode)
+    with warnings.catch_warnings():
+        warnings.simplefilter('ignore')
+        try:
+            shared = emd.cycles.Cycles(ip.copy(), use_cache=case['use_cache'])
+        except Exception as e:
+            raise Violation('C19/Cycles/raises/' + type(e).__name__, repr(e))
+        prev = 'first-call'
+        for routine, mode in case['steps']:
+            try:
+                got = run(routine, mode, shared)
+                fresh = run(routine, mode, emd.cycles.Cycles(ip.copy(), use_cache=case['use_cache']))
+            except Exception as e:
+                raise Violation('C19/%s/Cycles-object/raises/%s/mode=%s' % (routine, type(e).__name__, mode), repr(e))
+            if not same(got, fresh):
+                raise Violation('C19/%s/Cycles-object/result-depends-on-earlier-calls-through-the-same-object/mode=%s/after-%s' % (routine, mode, prev),
+                                'steps %r' % (case['steps'],))
+            prev = '%s(%s)' % (routine, mode)
+            rec.cls('%s mode=%s' % (routine, mode))
+    return len({m for _, m in case['steps']}) == 2
+
+
 CLAUSES = [
+    Clause('C19.object', oracle_object, strategy=object_case(), quick=400, thorough=8000, shards=(4, 16),
+           nt_rule='a series that uses both modes on the same container'),
     Clause('C19.reuse', oracle_reuse, strategy=reuse_case(), quick=960, thorough=20000, shards=(8, 16),
            nt_rule='every evaluated (routine, signal pair)'),
     Clause('C19.single', oracle_single, strategy=sig_case(SINGLE), quick=640, thorough=8000, shards=(16, 16),
